@@ -261,3 +261,125 @@ Proof.
     rewrite andb_true_r; rewrite objid_checks_are_documented;
     destruct (objid_doc_ranges _); congruence.
 Qed.
+
+(* ---------- the glue model equals the row-wise specification on array calls of any length ---------- *)
+
+Lemma zip_rows_length (cols : list (list Z)) n row : In row (zip_rows cols n) -> length row = length cols.
+Proof.
+  revert cols; induction n as [|n IH]; intros cols H; simpl in H; [contradiction|].
+  destruct H as [<-|H]; [apply map_length|].
+  rewrite (IH _ H). apply map_length.
+Qed.
+
+Lemma row7 (row : list Z) : length row = 7%nat -> exists a b c d e f g, row = [a; b; c; d; e; f; g].
+Proof.
+  destruct row as [|a [|b [|c [|d [|e [|f [|g [|x r]]]]]]]]; intros L; try discriminate L.
+  repeat eexists.
+Qed.
+
+Lemma row6 (row : list Z) : length row = 6%nat -> exists a b c d e f, row = [a; b; c; d; e; f].
+Proof.
+  destruct row as [|a [|b [|c [|d [|e [|f [|x r]]]]]]]; intros L; try discriminate L.
+  repeat eexists.
+Qed.
+
+Lemma forallb_ext_in {A} (f g : A -> bool) l : (forall x, In x l -> f x = g x) -> forallb f l = forallb g l.
+Proof.
+  induction l as [|x l IH]; intros H; simpl; [reflexivity|].
+  rewrite (H x (or_introl eq_refl)), IH; [reflexivity|]. intros y Hy. apply H. right; exact Hy.
+Qed.
+
+(* sdss_objid called with seven arrays: ValueError unless all lengths agree and every row is in the documented
+   ranges; otherwise exactly the documented layout of every row *)
+Theorem objid_model_arrays d r c f o rr s ff :
+  objid_model d (Ar r) (Ar c) (Ar f) (Ar o) (Ar rr) (Ar s) (Ar ff) =
+  let n := length r in
+  let cols := [s; rr; r; c; ff; f; o] in
+  if forallb (fun col => Nat.eqb (length col) n) cols then
+    let rows := zip_rows cols n in
+    if forallb objid_doc_ranges rows then Ok (map (pack objid_table) rows) else ValueError
+  else ValueError.
+Proof.
+  unfold objid_model. cbn [promote promote_default]. cbv zeta.
+  destruct (forallb (fun col => Nat.eqb (length col) (length r)) [s; rr; r; c; ff; f; o]) eqn:EL; [|reflexivity].
+  set (rows := zip_rows [s; rr; r; c; ff; f; o] (length r)).
+  assert (R7 : forall row, In row rows -> exists a b c0 d0 e f0 g, row = [a; b; c0; d0; e; f0; g]).
+  { intros row H. apply row7. apply (zip_rows_length _ _ _ H). }
+  assert (EQ : forallb (checks_ok objid_checks) rows = forallb objid_doc_ranges rows).
+  { apply forallb_ext_in. intros row H. destruct (R7 row H) as (a & b & c0 & d0 & e & f0 & g & ->).
+    apply objid_checks_are_documented. }
+  rewrite EQ. destruct (forallb objid_doc_ranges rows) eqn:ER; [|reflexivity].
+  f_equal. apply map_ext_in. intros row H. destruct (R7 row H) as (a & b & c0 & d0 & e & f0 & g & ->).
+  unfold objid_of. apply objid_layout. rewrite objid_checks_are_documented.
+  rewrite forallb_forall in ER. apply ER. exact H.
+Qed.
+
+Lemma hd_in_or_default (c : list Z) : In (hd 0 c) c \/ hd 0 c = 0.
+Proof. destruct c; simpl; auto. Qed.
+
+Lemma nth_map_hd (cols : list (list Z)) j : nth j (map (fun c => hd 0 c) cols) 0 = hd 0 (nth j cols []).
+Proof. exact (map_nth (fun c => hd 0 c) cols [] j). Qed.
+Lemma nth_map_tl (cols : list (list Z)) j : nth j (map (@tl Z) cols) [] = tl (nth j cols []).
+Proof. exact (map_nth (@tl Z) cols [] j). Qed.
+
+Lemma zip_rows_nth (cols : list (list Z)) n row j :
+  In row (zip_rows cols n) -> In (nth j row 0) (nth j cols []) \/ nth j row 0 = 0.
+Proof.
+  revert cols; induction n as [|n IH]; intros cols H; simpl in H; [contradiction|].
+  destruct H as [<-|H].
+  - rewrite nth_map_hd. apply hd_in_or_default.
+  - destruct (IH _ H) as [Hin|Hz]; [|right; exact Hz]. left.
+    rewrite nth_map_tl in Hin.
+    destruct (nth j cols []); simpl in Hin; [contradiction | right; exact Hin].
+Qed.
+
+Lemma in_repeat_zero (x : Z) n : In x (repeat 0 n) -> x = 0.
+Proof. intros H. apply repeat_spec in H. exact H. Qed.
+
+Definition spec_row_pack (v : list Z) : Z :=
+  match v with [a; b; c; d; e; i] => pack specobjid_table [a; b; c; d; e + i] | _ => 0 end.
+
+Lemma spec_rows_core (p f m' r l : list Z) :
+  let n := length p in
+  let cols := [p; f; m'; r; l; repeat 0 n] in
+  (if forallb (fun c => Nat.eqb (length c) n) cols then
+     let rows := zip_rows cols n in
+     if forallb (checks_ok specobjid_checks) rows then Ok (map specobjid_of rows) else ValueError
+   else ValueError)
+  =
+  (if forallb (fun c => Nat.eqb (length c) n) cols then
+     let rows := zip_rows cols n in
+     if forallb specobjid_doc_ranges rows then Ok (map spec_row_pack rows) else ValueError
+   else ValueError).
+Proof.
+  cbv zeta.
+  destruct (forallb (fun c => Nat.eqb (length c) (length p)) [p; f; m'; r; l; repeat 0 (length p)]); [|reflexivity].
+  set (rows := zip_rows [p; f; m'; r; l; repeat 0 (length p)] (length p)).
+  assert (R6 : forall row, In row rows -> exists a b c d e i, row = [a; b; c; d; e; i] /\ i = 0).
+  { intros row H. destruct (row6 row (zip_rows_length _ _ _ H)) as (a & b & c & d & e & i & ->).
+    do 6 eexists. split; [reflexivity|].
+    destruct (zip_rows_nth _ _ _ 5%nat H) as [Hin|Hz]; cbn [nth] in *;
+      [apply in_repeat_zero in Hin; exact Hin | exact Hz]. }
+  assert (EQ : forallb (checks_ok specobjid_checks) rows = forallb specobjid_doc_ranges rows).
+  { apply forallb_ext_in. intros row H. destruct (R6 row H) as (a & b & c & d & e & i & -> & _).
+    apply specobjid_checks_are_documented. }
+  rewrite EQ. destruct (forallb specobjid_doc_ranges rows) eqn:ER; [|reflexivity].
+  f_equal. apply map_ext_in. intros row H. destruct (R6 row H) as (a & b & c & d & e & i & -> & ->).
+  unfold specobjid_of, spec_row_pack. apply specobjid_layout; [|right; reflexivity].
+  rewrite specobjid_checks_are_documented. rewrite forallb_forall in ER. apply ER. exact H.
+Qed.
+
+(* sdss_specobjid called with arrays (true MJDs, optional line array, no index): row-wise documented layout *)
+Theorem specobjid_model_arrays p f m r (line : option (list Z)) :
+  specobjid_model (Ar p) (Ar f) (Ar m) (R2arr r) (option_map Ar line) None =
+  let n := length p in
+  let l := match line with Some l => l | None => repeat 0 n end in
+  let cols := [p; f; map (fun z => z - 50000) m; r; l; repeat 0 n] in
+  if forallb (fun col => Nat.eqb (length col) n) cols then
+    let rows := zip_rows cols n in
+    if forallb specobjid_doc_ranges rows then Ok (map spec_row_pack rows) else ValueError
+  else ValueError.
+Proof.
+  unfold specobjid_model, promote_mjd. destruct mjd_conventions_agree as [_ ->].
+  destruct line as [l|]; cbn [option_map promote]; apply spec_rows_core.
+Qed.
